@@ -2,7 +2,7 @@
 # usage: confirm_mutant.sh <PROP> <a|b>
 # Confirms a seeded change in its scratch worktree /tmp/wt-<PROP>: patch applies, pinned suite passes,
 # demo fails with the change and passes without it. On success stores it under /verif/seeded/<PROP>-<x>/.
-prop="$1"; x="$2"; wt=/tmp/wt-$prop; out=$wt/_out
+prop="$1"; x="$2"; wt=${WT_PREFIX:-/tmp/wt-}$prop; out=$wt/_out; name=${3:-$x}
 cd $wt || exit 2
 git checkout -q -- . && git clean -qfd -e _out -e target
 cmd=$(python3 -c "
@@ -24,7 +24,7 @@ timeout 900 bash -c "$cmd" >> $log 2>&1; without=$?
 rm -f tests/demo_$x.rs; rmdir tests 2>/dev/null
 git checkout -q -- . ; git clean -qfd -e _out -e target
 if [ $suite -eq 0 ] && [ $pinned -ge 1 ] && [ $with -ne 0 ] && [ $without -eq 0 ]; then
-  d=/verif/seeded/$prop-$x; mkdir -p $d
+  d=/verif/seeded/$prop-$name; mkdir -p $d
   cp $out/$x.patch.diff $d/patch.diff; cp $out/$x.demo.rs $d/demo.rs
   python3 - <<PY
 import json
@@ -32,7 +32,7 @@ m=json.load(open('$out/$x.meta.json'))
 m['confirmed_by_me']={'worktree':'$wt (scratch, removed afterwards)','pinned_suite_with_change':'30 passed (exit $suite)','demo_with_change_exit':$with,'demo_without_change_exit':$without,'demo_cmd_run':'''$cmd'''}
 json.dump(m,open('$d/meta.json','w'),indent=1)
 PY
-  echo "$prop-$x: CONFIRMED (suite ok, demo fails with [$with], passes without)"
+  echo "$prop-$name: CONFIRMED (suite ok, demo fails with [$with], passes without)"
 else
-  echo "$prop-$x: NOT CONFIRMED suite=$suite pinned=$pinned with=$with without=$without (see $log)"
+  echo "$prop-$name: NOT CONFIRMED suite=$suite pinned=$pinned with=$with without=$without (see $log)"
 fi
